@@ -3,22 +3,28 @@ import flowpaths.utils.dominators as dominators
 from queue import Queue
 
 def find_path(adj_dict, s, t):
-    """Find a path from s to t using DFS."""
-    def dfs_path(node, path: list, visited: set):
-        if node == t:
-            return True
-        visited.add(node)
-        for neighbor in adj_dict[node]:
+    """Find a path from s to t using DFS (iterative: the DFS path can be as long as the graph)."""
+    path = [s]
+    if s == t:
+        return path
+    visited = {s}
+    # One iterator over the out-neighbors per node of the current DFS path
+    stack = [iter(adj_dict[s])]
+    while stack:
+        advanced = False
+        for neighbor in stack[-1]:
             if neighbor not in visited:
                 path.append(neighbor)
-                if dfs_path(neighbor, path, visited):
-                    return True
+                if neighbor == t:
+                    return path
+                visited.add(neighbor)
+                stack.append(iter(adj_dict[neighbor]))
+                advanced = True
+                break
+        if not advanced:
+            stack.pop()
+            if stack:
                 path.pop()  # Backtrack if this path doesn't lead to t
-        return False
-    
-    path = [s]
-    visited = set()
-    dfs_path(s, path, visited)
     return path
 
 def find_idom(adj_dict, s, t) -> list:
